@@ -94,6 +94,15 @@ class HasAccessibles(HasProperties):
                 # replace the bare value by the created accessible
                 setattr(cls, aname, aobj)
             else:
+                if aname not in cls.__dict__:
+                    owner = next(b for b in cls.__mro__ if aname in b.__dict__)
+                    if any(aname in b.__dict__ and b not in owner.__mro__ for b in cls.__mro__):
+                        # properties of classes the owner does not inherit from (multiple inheritance,
+                        # mixins) are merged: do this on a copy, not on the accessible of the owner
+                        optional = aobj.optional
+                        aobj = aobj.copy()
+                        aobj.optional = optional
+                        setattr(cls, aname, aobj)
                 aobj.merge(merged_properties[aname])
             accessibles[aname] = aobj
 
